@@ -98,7 +98,7 @@ func isParam(v ssa.Value, f *ssa.Function, idx int) bool {
 
 func isFieldOfParam(v ssa.Value, f *ssa.Function, pidx int, field string) bool {
 	fv, base := loadedField(v)
-	if fv == nil || fv.Name() != field {
+	if fv == nil || fname(fv) != field {
 		return false
 	}
 	// value receivers are spilled: base may be the Alloc holding the receiver copy
@@ -514,12 +514,12 @@ func ruleWriteLevelOperand(r *Run, p *Prog) {
 			case *ssa.Call:
 				if x.Call.IsInvoke() && x.Call.Method.Name() == "WriteLevel" {
 					fv, base := loadedField(x.Call.Value)
-					if fv == nil || fv.Name() != "w" || !typeIs(base.Type(), modPath, "Event") {
+					if fv == nil || fname(fv) != "w" || !typeIs(base.Type(), modPath, "Event") {
 						return
 					}
 					nCalls++
 					lf, lb := loadedField(x.Call.Args[0])
-					ok := lf != nil && lf.Name() == "level" && lb == base
+					ok := lf != nil && fname(lf) == "level" && lb == base
 					r.Ob("WLEVEL", FnName(f)+"/WriteLevel-level", p.Pos(x.Pos()), ok, true, tern(ok, "writer receives e.level", "the writer is called with "+descr(x.Call.Args[0])+" instead of the event's level"))
 				}
 			case *ssa.Store:
@@ -528,7 +528,7 @@ func ruleWriteLevelOperand(r *Run, p *Prog) {
 					return
 				}
 				fv := fieldVar(fa)
-				if fv == nil || fv.Name() != "level" || !typeIs(fa.X.Type(), modPath, "Event") {
+				if fv == nil || fname(fv) != "level" || !typeIs(fa.X.Type(), modPath, "Event") {
 					return
 				}
 				okv := false
